@@ -32,10 +32,6 @@ func (prop) Level() string { return "exploration" }
 
 type caseData struct {
 	Inputs []bytesgen.Input `json:"inputs"`
-	// Scopes lists the violation classes covered by open known findings (filled by
-	// the driver from known_findings.json); a violation whose class is listed is
-	// counted, not reported. Witness cases of findings carry no scopes.
-	Scopes []string `json:"scopes,omitempty"`
 }
 
 // viol is one violating error of a batch.
@@ -192,12 +188,9 @@ func excerpt(file []byte, off int) string {
 }
 
 func (prop) Work(c core.Case) core.Result {
+	bytesgen.LimitAddressSpace()
 	var cd caseData
 	c.Decode(&cd)
-	scopes := map[string]bool{}
-	for _, s := range cd.Scopes {
-		scopes[s] = true
-	}
 	counts := map[string]int64{}
 	sigs := map[string]struct{}{}
 	var out workOut
@@ -272,10 +265,6 @@ func (prop) Work(c core.Case) core.Result {
 		}
 		sigs[core.SigJoin(in.Ext(), typ, MsgClass(be.Message()), feat)] = struct{}{}
 		for k := range keys {
-			if scopes[keys[k]] {
-				counts["covered_by_open_finding"]++
-				continue
-			}
 			counts["violations"]++
 			out.Viols = append(out.Viols, viol{Index: i, Key: keys[k], Size: in.Size(), Detail: fmt.Sprintf(
 				"[%s] %s\nerror: %s\nPath=%q Position={Line:%d Column:%d Start:%d End:%d} len(file)=%d\nat: %s\ninput: %s",
@@ -301,23 +290,6 @@ func (prop) Work(c core.Case) core.Result {
 
 // ---------------------------------------------------------------- driver side
 
-// knownScopes are the violation classes of open findings; each is consulted
-// through d.InScope so that removing the finding re-enables the reports.
-func openScopes(d *core.Driver) []string {
-	var out []string
-	for _, s := range scopeNames {
-		if d.InScope(s) {
-			out = append(out, s)
-		}
-	}
-	return out
-}
-
-// scopeNames lists every class that has ever been recorded as an open finding
-// (findings.json). A class that is not listed in known_findings.json as open is
-// reported as a violation.
-var scopeNames = []string{}
-
 type classAgg struct {
 	key   string
 	n     int
@@ -336,8 +308,6 @@ func (p prop) Drive(d *core.Driver) error {
 		"the column is not judged when the bytes between the line start and Start are not valid UTF-8; the line and the ranges always are",
 		"builds that panic or kill the process are not judged here (C04)",
 	}
-	scopes := openScopes(d)
-	d.T.Set("open_finding_scopes", scopes)
 	total := d.N(30000, 900000)
 	round := 60000
 	r := d.Rand("mix")
@@ -373,11 +343,11 @@ func (p prop) Drive(d *core.Driver) error {
 		var cases []core.Case
 		for lo := 0; lo < len(inputs); lo += batchSize {
 			hi := min(lo+batchSize, len(inputs))
-			cases = append(cases, core.NewCase(fmt.Sprintf("r%d-%d", rn, lo/batchSize), caseData{Inputs: inputs[lo:hi], Scopes: scopes}))
+			cases = append(cases, core.NewCase(fmt.Sprintf("r%d-%d", rn, lo/batchSize), caseData{Inputs: inputs[lo:hi]}))
 		}
-		rs := d.Run(cases, core.RunOpts{NoTally: true, CaseWall: 150 * time.Second})
+		rs := d.Run(cases, core.RunOpts{NoTally: true, CaseWall: 150 * time.Second, GOMAXPROCS: 1})
 		for i := range rs {
-			p.collect(d, cases[i], rs[i], inputs[i*batchSize:min((i+1)*batchSize, len(inputs))], scopes, aggs)
+			p.collect(d, cases[i], rs[i], inputs[i*batchSize:min((i+1)*batchSize, len(inputs))], aggs)
 		}
 		done += len(inputs)
 	}
@@ -388,10 +358,17 @@ func (p prop) Drive(d *core.Driver) error {
 	}
 	sort.Strings(keys)
 	classes := map[string]int{}
+	var covered []string
 	for _, k := range keys {
 		a := aggs[k]
 		classes[k] = a.n
-		sc := core.NewCase("class:"+k, caseData{Inputs: []bytesgen.Input{a.best}, Scopes: scopes})
+		if d.InScope(k) {
+			// the class of an open known finding (its witness is replayed at every run)
+			d.T.Count("covered_by_open_finding", int64(a.n))
+			covered = append(covered, k)
+			continue
+		}
+		sc := core.NewCase("class:"+k, caseData{Inputs: []bytesgen.Input{a.best}})
 		sr := d.Run([]core.Case{sc}, core.RunOpts{Workers: 1, NoTally: true})[0]
 		sr.Out, sr.Evals, sr.Sigs, sr.Counts = nil, 0, nil, nil
 		if sr.Status != core.Violation {
@@ -401,11 +378,12 @@ func (p prop) Drive(d *core.Driver) error {
 		d.Judge(sc, sr)
 	}
 	d.T.Set("violation_classes", classes)
+	d.T.Set("classes_covered_by_open_findings", covered)
 	return nil
 }
 
 // collect tallies one batch result and aggregates its violations by class.
-func (p prop) collect(d *core.Driver, c core.Case, r core.Result, inputs []bytesgen.Input, scopes []string, aggs map[string]*classAgg) {
+func (p prop) collect(d *core.Driver, c core.Case, r core.Result, inputs []bytesgen.Input, aggs map[string]*classAgg) {
 	switch r.Status {
 	case core.Crash, core.Timeout, "":
 		// a process death or a hang is C04's finding; salvage the other inputs one by one
@@ -413,11 +391,11 @@ func (p prop) collect(d *core.Driver, c core.Case, r core.Result, inputs []bytes
 		if len(inputs) > 1 {
 			var solos []core.Case
 			for i := range inputs {
-				solos = append(solos, core.NewCase(fmt.Sprintf("%s-i%d", c.ID, i), caseData{Inputs: inputs[i : i+1], Scopes: scopes}))
+				solos = append(solos, core.NewCase(fmt.Sprintf("%s-i%d", c.ID, i), caseData{Inputs: inputs[i : i+1]}))
 			}
 			srs := d.Run(solos, core.RunOpts{NoTally: true, Chunk: 1, CaseWall: 60 * time.Second})
 			for i := range srs {
-				p.collect(d, solos[i], srs[i], inputs[i:i+1], scopes, aggs)
+				p.collect(d, solos[i], srs[i], inputs[i:i+1], aggs)
 			}
 			return
 		}
